@@ -528,6 +528,19 @@ def r3_record_layout(ctx, rule, scope='all'):
             lvl_wrong = ('int(%s)' % ng_src) in txt
             ng_used = ng_src in txt.replace('int(%s)' % ng_src, '')
             verdicts.append((lvl_ok and ng_used and not lvl_wrong, lvl_wrong, lvl_src, ng_src))
+        if not verdicts:
+            # the split written out at every use (no local holds the fields)
+            txt = U(fn)
+            for n_ in walk_local(fn):
+                if isinstance(n_, ast.Call) and isinstance(n_.func, ast.Attribute) and n_.func.attr in ('split', 'partition') and n_.args \
+                        and const(n_.args[0]) == '\t':
+                    ng_idx = 1 if n_.func.attr == 'split' else 2
+                    lvl_src, ng_src = '%s[0]' % U(n_), '%s[%d]' % (U(n_), ng_idx)
+                    lvl_ok = ('int(%s)' % lvl_src) in txt
+                    lvl_wrong = ('int(%s)' % ng_src) in txt
+                    ng_used = ng_src in txt.replace('int(%s)' % ng_src, '')
+                    verdicts.append((lvl_ok and ng_used and not lvl_wrong, lvl_wrong, lvl_src, ng_src))
+                    break
         if verdicts and all(v[0] for v in verdicts):
             ctx.ok(rule, q, 'level = int(field 0), n-gram = the field after the TAB', {'fields': [(v[2], v[3]) for v in verdicts]})
         elif any(v[1] for v in verdicts):
